@@ -38,17 +38,12 @@ def run(prop, tier, seed, scratch, replay=None):
     if prop == "C10":
         subst["ACTION_CONSTRAINT EmitStep"] = "ACTION_CONSTRAINT EmitStepPre"
     bfs = vlib.run_tlc(scratch, "AddrMgr.tla", cfg, out_traces=traces, tag="bfs", cfg_subst=subst,
-                       timeout=3000 if tier == "thorough" else 600, coverage=(tier == "thorough"))
+                       timeout=3000 if tier == "thorough" else 600)
     vlib.require_tlc_ok(bfs, "exhaustive exploration")
-    if tier == "thorough":
-        dead = [a for a in bfs["coverage_zero"] if a[0].isupper() and a not in ("Init", "Inv", "TypeOK")]
-        acts = [a for a in dead if a in ("NextAddr", "Extend", "Lookup", "DerivePath", "DeriveCache", "MarkUsed", "NewAccount",
-                                         "ImportXpub", "Rename", "Import", "Unlock", "Lock", "ChangePriv", "ChangePub", "ConvertWO",
-                                         "SetSynced", "Restart")]
-        cfgtext = open(os.path.join(vlib.SPEC, cfg)).read()
-        acts = [a for a in acts if '"%s"' % a in cfgtext]
-        if acts:
-            raise vlib.Broken("actions never taken in the exhaustive run: %s" % acts)
+    cfgtext = open(os.path.join(vlib.SPEC, cfg)).read()
+    acts = [x for x in ("NextAddr", "Extend", "Lookup", "DerivePath", "DeriveCache", "MarkUsed", "NewAccount", "ImportXpub", "Rename",
+                        "Import", "Unlock", "Lock", "ChangePriv", "ChangePub", "ConvertWO", "SetSynced", "Restart") if '"%s"' % x in cfgtext]
+    cov = vlib.op_histogram(traces, acts, cfg)
     simtr = scratch.path("sim.ndjson")
     sim = vlib.run_tlc(scratch, "AddrMgr.tla", "MC_AddrMgr_sim.cfg", cfg_subst={"NoRollback = {}": "NoRollback = " + NOROLLBACK[prop]}, simulate=NSIM[tier], depth=31, seed=seed,
                        out_traces=simtr, tag="sim", timeout=1800)
@@ -78,6 +73,7 @@ def run(prop, tier, seed, scratch, replay=None):
         "tlc_bfs_wall_s": bfs["wall_s"], "checker_cmd": bfs["cmd"],
         "diverged_behaviours": rep["extra"].get("diverged_behaviours", 0) + rep2["extra"].get("diverged_behaviours", 0),
     }
+    res.coverage["transitions_per_operation"] = cov
     if prop == "C10":
         res.coverage["faults_injected"] = rep["extra"].get("faults_injected", 0) + rep2["extra"].get("faults_injected", 0)
     res.assumptions = [
